@@ -84,6 +84,8 @@ def r1_pairing(P, rep, ctx):
     fu = P.func(f"{I}.TOCLinks.fresh_uuid")
     t = norm(fu.node)
     rep.check("fresh = ret not in self._toc_path" in t and "self._toc_path[ret] = None" in t and "while not fresh" in t, "C06.R1", fu.qual, "fresh_uuid retries until unused and reserves the uuid", fu.loc(), construct="fresh_uuid", message="fresh_uuid does not guarantee an unused, reserved uuid")
+    idx = [n.idx for n in g.nodes if n.kind == "stmt" and norm(n.stmt) == "self._objs[schema_ref.name] = stored_obj"]
+    rep.check(bool(idx) and g.every_path_passes(idx, g.exit), "C06.R1", fi.qual, "the node's in-memory object table records the stored object", fi.loc(), construct="_objs update in _set_raw", message="_set_raw does not record the object in _objs: a second object of the same schema is then accepted on this view")
     fi = P.func(f"{MM}._del_raw")
     g = ctx.cfg(fi)
     tests = [t for t in g.nodes if t.kind == "test" and norm(t.exprs[0]) == "_unlink"]
@@ -138,6 +140,23 @@ def r1_pairing(P, rep, ctx):
     rep.check(ok, "C06.R1", fi.qual, "when the last link of a schema is removed the schema record is unregistered (and only then)", fi.loc(), construct="schema unregistration", message="unregister does not notify the schema manager exactly when the schema's link group became empty")
     rep.check("self._toc_schemas._unregister(_schema_ref_for(s_name_vers))" in t and "s_name_vers: str = schema_group.name.split('/')[-1]" in t, "C06.R1", fi.qual, "the unregistered schema is the one named by the link group", fi.loc(), construct="schema ref of group", message="unregister derives the schema reference differently from the link group name")
     su = P.func(f"{I}.TOCSchemas._unregister")
+    g = ctx.cfg(su)
+    lp = [n for n in g.nodes if n.kind == "for" and norm(n.stmt.iter) == "providers"]
+    rmv = [n.idx for n in g.nodes if n.kind == "stmt" and norm(n.stmt) == "pkg_used.remove(schema_ref)"]
+    ut = [t.idx for t in g.nodes if t.kind == "test" and norm(t.exprs[0]) == "schema_ref in pkg_used"]
+    et = [t.idx for t in g.nodes if t.kind == "test" and norm(t.exprs[0]) in ("not len(pkg_used)", "not pkg_used", "len(pkg_used) == 0")]
+    pu = [n.idx for n in g.nodes if n.kind == "stmt" and norm(n.stmt) == "self._pkgs._unregister(pkg)"]
+    ok = len(lp) == 1 and bool(rmv) and bool(ut) and bool(et) and bool(pu) and all(g.every_path_passes(rmv, lp[0].idx, src=t, src_label="T") for t in ut) and g.every_path_passes(et, lp[0].idx, src=lp[0].idx, src_label="iter") and all(g.every_path_passes(pu, lp[0].idx, src=t, src_label="T") for t in et) and all(any(g.edge_dominates(t, "T", x) for t in et) for x in pu) and all(g.every_path_passes(ut, e) for e in et)
+    rep.check(ok, "C06.R1", su.qual, "for every providing package the schema is removed from its use set and the package record is dropped exactly when that set becomes empty", su.loc(), construct="package use counting in _unregister",
+              message="TOCSchemas._unregister does not decrement the package's used-schema set / drop the package record exactly when no used schema is left")
+    pd = [norm(v) for k, v in local_defs(su).get("providers", []) if v is not None]
+    rep.check(pd == ["set(self._pkgs._providers[schema_ref])"], "C06.R1", su.qual, "the providers are iterated over a snapshot (the table is modified while packages are dropped)", su.loc(), construct=f"providers = {pd}", message=f"providers is {pd}")
+    pun = P.func(f"{I}.TOCPackages._unregister")
+    g2 = ctx.cfg(pun)
+    pr = [n.idx for n in g2.nodes if n.kind == "stmt" and norm(n.stmt) == "providers.remove(pkg)"]
+    l2 = [n for n in g2.nodes if n.kind == "for" and norm(n.stmt.iter) == "info.plugins[schemas.name]"]
+    rep.check(len(l2) == 1 and bool(pr) and g2.every_path_passes(pr, l2[0].idx, src=l2[0].idx, src_label="iter") and "info = self._pkginfos.pop(pkg)" in norm(pun.node) and "del self._raw[pkg_path]" in norm(pun.node), "C06.R1", pun.qual,
+              "dropping a package removes its record, its info and itself from every provider set", pun.loc(), construct="TOCPackages._unregister", message="TOCPackages._unregister leaves the package in a provider set / keeps its record")
     t = norm(su.node)
     ok = "del self._raw[self._schema_path_for(schema_ref)]" in t and "self._schemas.remove(schema_ref)" in t and "self._update_parents_children(schema_ref, None)" in t and "self._pkgs._unregister(pkg)" in t and "if not len(pkg_used)" in t
     rep.check(ok, "C06.R1", su.qual, "schema record, tables and unused provider packages are removed together", su.loc(), construct="TOCSchemas._unregister", message="TOCSchemas._unregister does not remove the schema group, its table entries and packages no longer used")
@@ -193,6 +212,31 @@ def r2_node_ops(P, rep, ctx):
     rp = [c for c in local_calls(fi.node) if call_attr(c) == "repair_missing"]
     rep.check(all(kwarg(c, "update") is None for c in rp) and len(rp) >= 2, "C06.R2", fi.qual, "copied objects get fresh uuids (no update=True)", fi.loc(), construct="repair after copy", message="copy re-links copied objects with update=True: two objects share one uuid")
     rm = P.func(f"{I}.TOCLinks.repair_missing")
+    g = ctx.cfg(rm)
+    seq = ["obj.uuid = self.fresh_uuid()", "new_path = obj.to_path()", "self._raw.move(node.name, new_path)", "obj.node = cast(H5DatasetLike, self._raw[new_path])", "self.register(obj)"]
+    ns = [[n.idx for n in g.nodes if n.kind == "stmt" and norm(n.stmt) == s_] for s_ in seq]
+    okseq = all(ns) and all(g.every_path_passes(a, b[0]) for a, b in zip(ns, ns[1:]))
+    rep.check(okseq, "C06.R2", rm.qual, "re-uuid: fresh uuid < new object path < rename < node handle updated < registered", rm.loc(), construct="repair_missing else-branch order", message="repair_missing does not (reserve uuid, rename the object node, refresh obj.node, register) in this order: the new link would point at the old / a missing object path")
+    ut = [t.idx for t in g.nodes if t.kind == "test" and norm(t.exprs[0]) == "update and obj.uuid in self._toc_path"]
+    upd = [n.idx for n in g.nodes if n.kind == "stmt" and norm(n.stmt) == "self.update(obj.uuid, node.name)"]
+    loops = [n for n in g.nodes if n.kind == "for" and norm(n.stmt.iter) == "missing"]
+    ok = bool(ut) and bool(upd) and len(loops) == 1 and all(g.every_path_passes(upd, loops[0].idx, src=t, src_label="T") for t in ut) and all(g.every_path_passes(ns[-1], loops[0].idx, src=t, src_label="F") for t in ut) and g.every_path_passes(ut, loops[0].idx, src=loops[0].idx, src_label="iter")
+    rep.check(ok, "C06.R2", rm.qual, "every missing object is either re-linked (update) or re-registered under a fresh uuid", rm.loc(), construct="repair_missing per-object handling", message="repair_missing can skip an object or handle it on the wrong branch")
+    fmf0 = P.func(f"{I}.TOCLinks.find_missing")
+    cm = fmf0.nested.get("collect_missing")
+    if cm is None:
+        raise AnalysisError("find_missing.collect_missing not found")
+    gcm = ctx.cfg(cm)
+    t1 = [t.idx for t in gcm.nodes if t.kind == "test" and norm(t.exprs[0]) == "not M.is_internal_path(node.name, M.METADOR_META_PREF)"]
+    t2 = [t.idx for t in gcm.nodes if t.kind == "test" and norm(t.exprs[0]) == "M.is_meta_base_path(node.name)"]
+    t3 = [t.idx for t in gcm.nodes if t.kind == "test" and norm(t.exprs[0]) == "not known or collision"]
+    app = [n.idx for n in gcm.nodes if any(call_attr(c) == "append" and norm(c.func.value) == "missing" and norm(c.args[0]) == "node" for c in gcm.calls(n.idx))]
+    ok = bool(t1) and bool(t2) and bool(t3) and bool(app) and all(gcm.edge_dominates(t1[0], "F", a) and gcm.edge_dominates(t2[0], "F", a) and gcm.edge_dominates(t3[0], "T", a) for a in app) and all(gcm.every_path_passes(app, gcm.exit, src=t, src_label="T") for t in t3)
+    rep.check(ok, "C06.R2", cm.qual, "exactly the metadata object nodes whose uuid is unknown or collides are reported as missing", cm.loc(), construct="collect_missing filter", message="find_missing's collector does not report exactly the metadata objects with unknown / colliding uuid")
+    from .common import require_total
+
+    for fq in (f"{I}.TOCLinks.find_missing", f"{I}.TOCLinks.fresh_uuid", f"{I}.TOCLinks.resolve", f"{I}.StoredMetadata.to_path", f"{I}.StoredMetadata.from_node"):
+        require_total(rep, ctx, "C06.R2", P.func(fq))
     t = norm(rm.node)
     ok = "if update and obj.uuid in self._toc_path" in t and "self.update(obj.uuid, node.name)" in t and "obj.uuid = self.fresh_uuid()" in t and "self._raw.move(node.name, new_path)" in t and "self.register(obj)" in t
     rep.check(ok, "C06.R2", rm.qual, "repair: update existing link target, or rename to a fresh uuid and register", rm.loc(), construct="repair_missing", message="repair_missing does not (update link) / (assign fresh uuid, rename node, register)")
